@@ -453,6 +453,22 @@ func c14Run(e *core.Env) {
 			}
 		}
 	}
+	// (3c') every single-BYTE substitution and insertion with all 256 byte values on every seed (control bytes,
+	// high bytes and every ASCII character in every position)
+	for si, s := range seeds {
+		if !e.Mine(int64(si)) {
+			continue
+		}
+		for p := 0; p <= len(s); p++ {
+			for b := 0; b < 256; b++ {
+				e.State()
+				doParse(s[:p] + string([]byte{byte(b)}) + s[p:])
+				if p < len(s) {
+					doParse(s[:p] + string([]byte{byte(b)}) + s[p+1:])
+				}
+			}
+		}
+	}
 	// (3d) exponent-limit family
 	for ci, co := range []string{"1", "10", "0.1", "0.00001", "123.45", "0", "0.0", "00", "9.99", "99999999999999999999"} {
 		if !e.Mine(int64(ci)) {
@@ -497,7 +513,7 @@ func init() {
 			if tier == "thorough" {
 				L = 6
 			}
-			return fmt.Sprintf("text space: %d Decimals (coefficients < 200|1000 + EDGE + SHAPE(20|45), every exponent in [-len-10,4] + package limits, zero window [-2003,-1997], specials); Format: 13 verbs x 32 flag subsets x 17 widths x ~60 Decimals; parsing: all strings of <= %d tokens over a %d-token alphabet, 37^3 combinations with multi-character tokens, all single edits (+ bounded double edits) of %d seeds, exponent-limit family +-(99980..100020)", len(textSpace(tier)), L, len(c14Sigma), len(c14Seeds()))
+			return fmt.Sprintf("text space: %d Decimals (coefficients < 200|1000 + EDGE + SHAPE(20|45), every exponent in [-len-10,4] + package limits, zero window [-2003,-1997], specials); Format: 13 verbs x 32 flag subsets x 17 widths x ~60 Decimals; parsing: all strings of <= %d tokens over a %d-token alphabet, 37^3 combinations with multi-character tokens, all single token edits (+ bounded double edits) and all single-byte insertions/substitutions (256 byte values) of %d seeds, exponent-limit family +-(99980..100020)", len(textSpace(tier)), L, len(c14Sigma), len(c14Seeds()))
 		},
 		Run:    c14Run,
 		Replay: c14Replay,
